@@ -366,6 +366,7 @@ def run_property(prop, tier, seed, cases, mode, functions_encoded, bounds, extra
         "queries_sat": stats.sat,
         "vacuity_twins": stats.twins,
         "vacuity_twins_sat": stats.twins_sat,
+        "vacuity_twins_without_answer": getattr(stats, "twins_unknown", 0),
         "distinct_reference_shapes": len(stats.shapes),
         "undecided_by_property_text": stats.undecided,
         "inconclusive": [list(x) for x in stats.inconclusive[:20]],
